@@ -8,6 +8,7 @@ import Rend.Handlers.Std
 import Rend.Handlers.Chunked
 import Rend.Gen.Asm
 import Rend.Metrics.Hist
+import Rend.Cluster.Ketama
 
 open Rend Rend.Server
 
@@ -31,6 +32,8 @@ structure St where
   hist  : Metrics.HDat := { ring := List.replicate Metrics.ringLen 0 }
   hbak  : List Nat := List.replicate Metrics.ringLen 0
   hsamp : Bool := false
+  md5s  : List (Bytes × Bytes) := []
+  kring : List (Cluster.Point Bytes) := []
 
 def fnv64 (b : Bytes) : Nat :=
   b.foldl (fun h c => ((h ^^^ c.toNat) * 1099511628211) % 18446744073709551616) 14695981039346656037
@@ -94,6 +97,12 @@ def soutStr : SOut → String
   | .gat (some (f, d)) => s!"gat-hit({f},{hexOf d})"
   | .gat none => "gat-miss"
   | .other => "other"
+
+/-- bytewise lexicographic order (Go's string comparison) -/
+def bytesLe : Bytes → Bytes → Bool
+  | [], _ => true
+  | _ :: _, [] => false
+  | a :: as, b :: bs => a < b || (a == b && bytesLe as bs)
 
 def tierOf (s : String) : Tier := if s == "L2" then .l2 else .l1
 
@@ -194,6 +203,23 @@ def step (st : St) (line : String) : St × List String :=
     let ps := if h.count == 0 then List.replicate 23 0 else Metrics.percentiles h sorted
     ({ st with hist := { ring := st.hbak }, hbak := h.ring },
      [s!"{h.count} {h.kept} {h.min} {h.max} " ++ ",".intercalate (ps.map toString)])
+  | ["md5", inp, dig] => ({ st with md5s := (unhex inp, unhex dig) :: st.md5s }, [])
+  | "ring" :: limit :: labels =>
+    let md5 : Bytes → Bytes := fun b => ((st.md5s.find? (·.1 == b)).map (·.2)).getD (Bytes.zeros 16)
+    let n := labels.length
+    let lim := if limit == "auto" then Cluster.limitOf n else limit.toNat!
+    let r := Cluster.ring md5 id bytesLe lim (labels.map unhex)
+    ({ st with kring := r }, [s!"{lim} " ++ " ".intercalate (r.map fun p => s!"{p.1}:{Bytes.toHex p.2}")])
+  | ["bucketAt", loc] =>
+    (st, [match Cluster.bucketAt st.kring loc.toNat! with
+          | some l => Bytes.toHex l
+          | none => "nil"])
+  | ["hashkey", key] =>
+    let md5 : Bytes → Bytes := fun b => ((st.md5s.find? (·.1 == b)).map (·.2)).getD (Bytes.zeros 16)
+    (st, [match Cluster.hashKey md5 st.kring (unhex key) with
+          | some l => Bytes.toHex l
+          | none => "nil"])
+  | ["limit", n] => (st, [s!"{Cluster.limitOf n.toNat!}"])
   | "dump" :: tier :: keys =>
     let t := tierOf tier
     let s := st.run.w.get t
